@@ -3,7 +3,7 @@
    the theorem are satisfiable on multi-block traces with failures.  Everything by vm_compute. *)
 From Coercion.Base Require Import Plan.
 From Coercion.Engine Require Import Shape Event Accept.
-From Coercion.C03 Require Import MonC03.
+From Coercion.C03 Require Import MonC03 SchedIndep.
 
 (* drop the i-th element / insert before the i-th element *)
 Fixpoint drop_nth {A} (l : list A) (i : nat) : list A :=
@@ -243,3 +243,17 @@ Proof. vm_compute. reflexivity. Qed.
 (* the hypotheses of c03_tolerance are satisfiable on a multi-block trace with a failure *)
 Example hypotheses_satisfiable : shape_wf sh_t208 = true /\ run sh_t208 PlanSM.init tr_t208 <> None.
 Proof. split; [reflexivity|]. vm_compute. discriminate. Qed.
+
+(* the hypotheses of c03_block_verdict_schedule_independent are satisfiable: the deciding write of t338's block
+   (index 29), with the oracle "every sequence fails": 3 would fail > tol = 0, and the write is Failed *)
+Example sched_indep_hypotheses :
+  let tr := firstn 29 tr_t338 in
+  nth_error tr_t338 29 = Some (EvWrite (OBlock 0) Failed 0 false FRUnknown) /\
+  run sh_t338 PlanSM.init (tr ++ [EvWrite (OBlock 0) Failed 0 false FRUnknown]) <> None /\
+  (exists m, mon_run sh_t338 m0 tr = Some m /\ m_cur m = Some 0 /\ m_bst m = Running /\
+             m_chk m = false /\ m_pcont m = false /\ m_seqs m = [QFail; QFail; QNot]) /\
+  would_fail (fun _ => true) 3 = 3.
+Proof.
+  split; [reflexivity|]. split; [vm_compute; discriminate|]. split; [|reflexivity].
+  eexists. split; [vm_compute; reflexivity|]. repeat split.
+Qed.
